@@ -16,11 +16,13 @@ func init() {
 		Rule: "encoder: one case = one valid VLA (stream count, RID, subset of the stream x spatial slots, temporal-layer pattern, bitrate pattern, resolution on/off) marshalled, compared byte for byte with the reference encoder, unmarshalled into a fresh and a used receiver; invalid values must be rejected; decoder: one case = one byte string (short strings, truncations and single-byte mutations of valid encodings) into a fresh and a used receiver; non-trivial = allocation has at least two active layers / the decoder accepts",
 		Assumptions: []string{
 			"EVERY subset of the (stream < count, spatial) slots for count 1..4 (16 + 256 + 4096 + 65536) x every RID; temporal-layer patterns all-1 / all-4 / cyclic 1-2-3-4 (+ cyclic from 3) ; bitrate patterns small / cycling through the LEB128 size classes {0,1,127,128,16383,16384,2^21,2^28} / all 2^28; resolution off / on with sizes cycling through {1,2,256,65536} and frame rates {0,1,255}",
+			"temporal-layer count vectors: for 13 slot sets of 1..16 active layers, EVERY vector in {1..4}^L for L <= 8, and for L > 8 every vector that is 1 except in one or two positions; bitrate patterns small / LEB128 classes; resolution off / on",
 			"the empty allocation is only round-tripped (its layout is a special case of the specification)",
 			"decoder strings: nil, empty, all strings of 1-2 bytes, all 3-byte strings (thorough) / first byte x 40x40 symbols (quick); every truncation and single-byte replacement of 300 valid encodings",
 		},
 		Scenarios: []mc.Scenario{
 			{Name: "encode-every-slot-subset", Tiers: "qt", ShardDepth: 3, Run: c19Encode},
+			{Name: "every-temporal-layer-count-vector", Tiers: "qt", ShardDepth: 3, Run: c19TLVectors},
 			{Name: "marshal-rejects-invalid", Tiers: "qt", ShardDepth: 2, Run: c19Invalid},
 			{Name: "decoder-short-strings", Tiers: "qt", ShardDepth: 1, Run: c19Short},
 			{Name: "decoder-mutations", Tiers: "qt", ShardDepth: 3, Run: c19Mutations},
@@ -31,6 +33,20 @@ func init() {
 var c19RateClasses = []int{0, 1, 127, 128, 16383, 16384, 1 << 21, 1 << 28}
 
 func c19Build(count, rid int, mask uint32, tlPat, ratePat int, hasRes bool) (*rtp.VLA, *ref.VLAValue) {
+	return c19BuildTL(count, rid, mask, func(k int) int {
+		switch tlPat {
+		case 0:
+			return 1
+		case 1:
+			return 4
+		case 2:
+			return k%4 + 1
+		}
+		return (k+2)%4 + 1
+	}, ratePat, hasRes)
+}
+
+func c19BuildTL(count, rid int, mask uint32, tl func(k int) int, ratePat int, hasRes bool) (*rtp.VLA, *ref.VLAValue) {
 	v := &rtp.VLA{RTPStreamID: rid, RTPStreamCount: count, HasResolutionAndFramerate: hasRes}
 	w := &ref.VLAValue{RID: rid, Count: count, HasRes: hasRes}
 	k := 0
@@ -39,17 +55,7 @@ func c19Build(count, rid int, mask uint32, tlPat, ratePat int, hasRes bool) (*rt
 			if mask>>uint(s*4+sp)&1 == 0 {
 				continue
 			}
-			var ntl int
-			switch tlPat {
-			case 0:
-				ntl = 1
-			case 1:
-				ntl = 4
-			case 2:
-				ntl = k%4 + 1
-			default:
-				ntl = (k+2)%4 + 1
-			}
+			ntl := tl(k)
 			rates := make([]int, ntl)
 			for t := range rates {
 				switch ratePat {
@@ -94,6 +100,40 @@ func c19Equal(a, b *rtp.VLA) string {
 	return ""
 }
 
+// c19TLVectors: every vector of temporal-layer counts for allocations of up to 8 active layers,
+// and for 9-16 layers every vector that is 1 everywhere but in one or two positions.
+func c19TLVectors(c *mc.Ctx) {
+	masks := []struct {
+		count int
+		mask  uint32
+	}{{1, 0x1}, {1, 0x3}, {2, 0x13}, {1, 0xF}, {2, 0x1F}, {3, 0x333}, {4, 0x1337}, {2, 0xFF}, {4, 0x3333}, {3, 0x7F7}, {3, 0xFFF}, {4, 0x7FFF}, {4, 0xFFFF}}
+	m := mc.From(c, masks)
+	layers := 0
+	for i := 0; i < 16; i++ {
+		layers += int(m.mask >> uint(i) & 1)
+	}
+	tl := make([]int, layers)
+	if layers <= 8 {
+		for i := range tl {
+			tl[i] = 1 + c.Pick(4)
+		}
+	} else {
+		for i := range tl {
+			tl[i] = 1
+		}
+		a, b := c.Pick(layers), c.Pick(layers)
+		tl[a] = 1 + c.Pick(4)
+		if b != a {
+			tl[b] = 1 + c.Pick(4)
+		}
+	}
+	ratePat := c.Pick(2)
+	hasRes := c.Bool()
+	v, w := c19BuildTL(m.count, m.count-1, m.mask, func(k int) int { return tl[k] }, ratePat, hasRes)
+	c19RoundTrip(c, v, w, m.mask)
+	c.Outcome(fmt.Sprintf("layers=%d res=%v", layers, hasRes))
+}
+
 func c19Encode(c *mc.Ctx) {
 	count := 1 + c.Pick(4)
 	rid := c.Pick(count)
@@ -110,6 +150,11 @@ func c19Encode(c *mc.Ctx) {
 		hasRes = false // with no active layer there is no resolution record to carry the flag
 	}
 	v, w := c19Build(count, rid, mask, tlPat, ratePat, hasRes)
+	c19RoundTrip(c, v, w, mask)
+	c.Outcome(fmt.Sprintf("count=%d layers=%d res=%v", count, minI(len(v.ActiveSpatialLayer), 5), hasRes))
+}
+
+func c19RoundTrip(c *mc.Ctx, v *rtp.VLA, w *ref.VLAValue, mask uint32) {
 	desc := func() string { return fmt.Sprintf("VLA{%s}", v.String()) }
 	b, err := v.Marshal()
 	c.Ops(1)
@@ -144,7 +189,6 @@ func c19Encode(c *mc.Ctx) {
 	if len(v.ActiveSpatialLayer) >= 2 {
 		c.NonTrivial()
 	}
-	c.Outcome(fmt.Sprintf("count=%d layers=%d res=%v", count, minI(len(v.ActiveSpatialLayer), 5), hasRes))
 }
 
 func c19Invalid(c *mc.Ctx) {
